@@ -109,6 +109,15 @@ def _expand(payload, sub):
                 k = rng.choice(cand)
                 del sp['fields'][k]
                 sp['fields']['m_' + k] = [k]
+        elif sp['step'] == 'concatenate' and rng.random() < 0.5:
+            # a target field that is itself a column of one selected resource and additionally collects a differently
+            # named column of the same type from the others:  s0: ['s1']
+            cand = sorted(k for k in sp['fields'] if k != '_id')
+            pairs = [(a, b) for a in cand for b in cand if a != b and a[0] == b[0]]
+            if pairs:
+                a, b = rng.choice(pairs)
+                del sp['fields'][b]
+                sp['fields'][a] = [b]
     # sources() names the resources of each of its data sources res_1 (duplicate names are C02's business): placed last only
     sc['steps'] = [sp for sp in sc['steps'] if sp['step'] != 'sources']
     if rng.random() < 0.15:
@@ -151,7 +160,7 @@ class C16(Prop):
     ASSUMPTIONS = ['the placement model (dfsim/props/c16.py:model) is the documented semantics: first-selected position for concatenate, right-after / end for duplicate, append for new sources',
                    'sqlite below KVFile is real and fault-free here']
     REAL_VS_STUB = {'real': ['dataflows concatenate / duplicate / delete_resource / iterable_loader / update_resource', 'kvfile + sqlite'], 'stub': ['KVFile twin only sets the cache-size knob and counts operations']}
-    PROBES = ['duplicate-spilled-to-disk', 'concatenate-with-rename', 'delete-after-duplicate', 'empty-resource', 'big-resource', 'duplicate-to-end', 'iterable-appended', 'concat-then-delete', 'concatenate-without-id-field', 'sources-appended', 'load-tuple-appended', 'schema-edit-on-one-twin-after-duplicate']
+    PROBES = ['duplicate-spilled-to-disk', 'concatenate-with-rename', 'delete-after-duplicate', 'empty-resource', 'big-resource', 'duplicate-to-end', 'iterable-appended', 'concat-then-delete', 'concatenate-without-id-field', 'sources-appended', 'load-tuple-appended', 'schema-edit-on-one-twin-after-duplicate', 'concatenate-target-is-also-a-source-column']
     TIERS = {'quick': dict(runs=800, wall=100, run_wall=300),
              'thorough': dict(runs=25000, wall=1700, run_wall=600)}
     SHRINK_FROZEN = ('fields_', 'gen_stats')
@@ -191,6 +200,8 @@ class C16(Prop):
                 ctx.probe('duplicate-to-end')
             if sp['step'] == 'concatenate' and any(v for v in sp['fields'].values()):
                 ctx.probe('concatenate-with-rename')
+            if sp['step'] == 'concatenate' and any(v and not k.startswith('m_') for k, v in sp['fields'].items()):
+                ctx.probe('concatenate-target-is-also-a-source-column')
             if sp['step'] == 'iterable':
                 ctx.probe('iterable-appended')
             if sp['step'] == 'sources':
